@@ -2,7 +2,10 @@
 """regenerates MANIFEST.json from checklib/manifest_data.py (kept by hand)"""
 import json, os, sys
 sys.path.insert(0, os.path.join(os.path.dirname(__file__), ".."))
-from checklib.manifest_data import CHECKS, NOT_APPLICABLE, HOOK_COMMITS, NOTES
+from checklib.manifest_data import NOT_APPLICABLE, HOOK_COMMITS, NOTES, CLAIMED
+from checklib.registry import PROPS
+CHECKS = {k: v['manifest'] for k, v in PROPS.items() if k in CLAIMED}
+NOT_APPLICABLE = {k: v for k, v in NOT_APPLICABLE.items() if k not in CHECKS}
 
 base = json.load(open("/root/.vp/BASELINE.json"))
 checks = []
